@@ -20,13 +20,15 @@ CHECKS = {
         "Order conditions are computed by the real stage loop: for every rooted tree up to the declared order (quick: <= 7) the polynomial tree "
         "system is integrated for one symbolic step h by the real integrator __call__ of every shipped class (explicit, implicit via exact Picard roots "
         "of the real algebraic_system, splitting schemes on bicoloured trees, Richardson wrappers with 2..5 levels) and z3 decides for all h that the "
-        "root component equals h^n/gamma(tau) within 2^-23 relative; embedded rows and the c column are checked the same way. Bounded by tree order; "
+        "root component equals h^n/gamma(tau) within 2^-23 relative; embedded rows and the c column are checked the same way; 'warm' instances repeat the low-order trees on an integrator "
+        "object that has just stepped a different equation ending where the step starts. Bounded by tree order; "
         "universal over h.", "DESIGN.md 3/C01",
         "Butcher's theorem and the local->global convergence theorem are the trusted mathematical base; RadauIIA19 orders 11..19 via simplifying assumptions B,C,D."),
     "C02": _entry("other",
         "Every RK/splitting class is executed symbolically on (t, h != 0 of either sign, y). Explicit classes: congruent uninterpreted rhs, the oracle evaluates f itself at the defining "
         "stage points: stored slope K_i = f(t + c_i h, y + h sum a_ij K_j), increment = h sum b_i K_i (independent of how many evaluations are made; a stale cached slope is a different "
-        "symbol); histories: consecutive calls and a call whose first trial is rejected and whose retry is interrupted by a fault, then repeated. Splitting schemes: the stated drift/kick "
+        "symbol); histories: consecutive calls, a call whose first trial is rejected and whose retry is interrupted by a fault, then repeated, and an attempt during which the rhs RETURNED NaN "
+        "(rejected, then retried / called again on the same object: nothing non-finite may leak into the next attempt). Splitting schemes: the stated drift/kick "
         "composition; implicit: the real algebraic_system equals K - f(...), the accepted increment is that of the returned root, the accepted step has the sign of h and is not longer, "
         "and a step is never accepted unless the last stage solve reported success and prec < tol (else FailedToMeetTolerances after 64 retries).", "DESIGN.md 3/C02, 6.4",
         "optimizer.nonlinear_roots replaced by the verdict_root contract stub; embedded pairs use the ctrl stub."),
@@ -37,20 +39,21 @@ CHECKS = {
         "sequences of integrate(t) calls incl. reversal and already-there.", "DESIGN.md 3/C03",
         "|tf-t0| <= N*|dt0| with N = 3 (quick) / 5 (thorough)."),
     "C04": _entry("other",
-        "Same symbolic runs restricted to |dt0| <= span: every recorded step but the last (of each call; one call and two consecutive calls) has magnitude |dt0| and none is longer "
+        "Same symbolic runs restricted to |dt0| <= span: every recorded step but the last (of each call; one call and two consecutive calls) has magnitude |dt0| and none is longer, also when the second call turns round towards / onto / beyond the original start time "
         "(implicit: shorter only after a failed stage solve); "
         "product runs in one path: span shifted by a symbolic constant and the time-reflected problem integrated backward give term-identical states (autonomous congruent rhs).",
         "DESIGN.md 3/C04", "Known finding c04.implicit_step_growth is reported as KNOWN-FINDING."),
     "C05": _entry("other",
         "Partial claim (second sentence): the real retry loop with h of either sign - every retry strictly smaller and same sign, result is the last attempt, all-reject raises "
         "FailedToMeetTolerances (FailedIntegration through OdeSystem, no row recorded); through OdeSystem a recorded row is exactly the last (accepted) attempt from its start time; the REAL update_timestep / implicit_aware_update_timestep decided in isolation with "
-        "axiomatised pow/arctan: corr in (0.2, 2.6), redo <=> corr < 0.81, accept => scaled error <= 1, error >= 4 => redo; Richardson re-entry shrinks and terminates.",
+        "axiomatised pow/arctan: corr in (0.2, 2.6), redo <=> corr < 0.81, accept => scaled error <= 1, error >= 4 => redo; two consecutive real __call__s with the real controller: a step "
+        "accepted at its first attempt meets the tolerance formed from its OWN state whatever the previous step looked like; Richardson re-entry shrinks and terminates.",
         "DESIGN.md 3/C05", "First sentence (global error proportional to tolerances) is NOT claimed: not solver-decidable with a useful bound."),
     "C06": _entry("other",
         "With dense output on, t0, tf, dt0 and a query q symbolic: sol(t_i) = y_i; the piece chosen by find_interval and find_interval_vec contains q for every q in the integrated "
         "range, both directions; pieces contiguous in step order with end values = recorded states and end slopes = f at the recorded states (congruent uninterpreted rhs: stale "
         "slopes are caught); continuation in a second call; histories with non-terminal and terminal events (rolled-back step) and continuation after the stop through the real event "
-        "section of integrate (events oracle); Richardson pieces cover the step.", "DESIGN.md 3/C06", "O(h^4) interpolation error bound is outside the claim."),
+        "section of integrate (events oracle, which like the real detector evaluates the dense output at scalar times inside the bracket; post-run queries newest first); Richardson pieces cover the step.", "DESIGN.md 3/C06", "O(h^4) interpolation error bound is outside the claim."),
     "C07": _entry("other",
         "Assume/guarantee: (A) the REAL handle_events on a symbolic step of either direction with 1-3 affine event functions (symbolic slope and root, directions and terminal flags "
         "enumerated) and the root finder replaced by the bracket_root stub: every returned event had success, lies in the bracket within sqrt(eps)*|step| of the true root, crosses in a "
@@ -60,7 +63,8 @@ CHECKS = {
     "C08": _entry("other",
         "(A) REAL handle_events with an exactly located, strictly interior crossing in a requested direction: the event IS returned for every scale 2^-20..2^20, direction of integration and "
         "number of events unless an earlier terminal event cuts the list; (B) REAL integrate with the events oracle: every detector report that is not a repeat of the same event "
-        "within eps^0.7 is recorded - true_positive filter, duplicate filter (events never merged) and interpolant pruning with dense_output=False, both directions.",
+        "within eps^0.7 is recorded - true_positive filter, duplicate filter (events never merged) and interpolant pruning with dense_output=False, both directions; (C) bit-precise end of the "
+        "chain: the QF_FP witnesses of C14's lemma (adjacent floats bracketing a steep time event, x in +-(0.5,2), +-(4,8), +-(64,128)) are given to the REAL handle_events + brentsrootvec in both directions: the event is reported.",
         "DESIGN.md 3/C07-C09", "End-to-end completeness additionally needs the root-finder guarantee of C14 (known finding c14.absolute_residual_success)."),
     "C09": _entry("other",
         "(A) REAL handle_events with >= 2 events, at least one terminal: only events up to the first terminal one along the direction of integration are returned, the list ends at "
@@ -71,7 +75,7 @@ CHECKS = {
     "C10": _entry("other",
         "Hamiltonian uninterpreted: the real ExplicitSymplecticIntegrator.__call__ on dual numbers with a right-hand side of arbitrary separable Hamiltonian structure: whole-step "
         "M^T J M = J as a polynomial identity and per-stage form (each stage factor symplectic, real update has the drift/kick form) for 1-2 d.o.f.; step(h);step(-h) = identity with "
-        "congruent T'(p), V'(q) on fresh integrators AND on one integrator object through two round trips from different states (the step map must not depend on the object's history); kick masks by default, constructor and set_kick_vars; implicit symplectic classes: b_i a_ij + b_j a_ji = b_i b_j, symmetry, R(z)R(-z) = 1, real step "
+        "congruent T'(p), V'(q) on fresh integrators AND on one integrator object through two round trips from different states, also after a step on that object was abandoned by an rhs exception at its k-th evaluation (the step map must not depend on the object's history); kick masks by default, constructor and set_kick_vars; implicit symplectic classes: b_i a_ij + b_j a_ji = b_i b_j, symmetry, R(z)R(-z) = 1, real step "
         "= R on the rotation block.", "DESIGN.md 3/C10", "Closure of the symplectic group and the Sanz-Serna/Lasagni tableau condition are the trusted mathematical base; energy drift is a consequence, not decided."),
     "C11": _entry("other",
         "For all 16 implicit classes, R = P/Q built at run time from the exact rational values of the float64 tableau entries: z3 proves |R(z)|^2 <= 1+1e-9 and det(I - zA) != 0 for ALL z "
@@ -83,7 +87,8 @@ CHECKS = {
         "Crash points enumerated exhaustively within the bound (every rhs-evaluation index / callback invocation / event-function evaluation of runs of <= N steps, four exception "
         "kinds, 5 method families), "
         "each instance universal over t0, tf, dt0: FailedIntegration with the injected cause (KeyboardInterrupt as itself), status, recorded rows = prefix of the fault-free twin run, "
-        "dense output one piece per recorded step, resume reaches tf with the prefix intact and pieces equal to the uninterrupted run, reset() restores a pristine system.",
+        "dense output one piece per recorded step, resume reaches tf with the prefix intact, every piece of the resumed run has end slopes f(recorded state) (all families) and equals the uninterrupted run's (fixed step), "
+        "reset() restores a pristine system; value faults (rhs returns NaN, then reset and re-run equals a fresh run) and a diverging stage solve (the call recovers by retrying or a second integrate() continues to the target).",
         "DESIGN.md 3/C12", "N = 2 (quick) / 3 + two successive faults (thorough). Event-function faults run the real handle_events with the root finder stubbed. Known finding c12.valueerror_swallowed_by_retry."),
     "C13": _entry("other",
         "All operation sequences up to the length bound over {integrate, integrate(T), set dt/tol/method, set_kick_vars, integrate with an event, faulting integrate, reset} with symbolic "
@@ -93,26 +98,26 @@ CHECKS = {
     "C17": _entry("other",
         "For every array length up to the bound, every strictly increasing real array and every real query (scalar and vector), z3 shows on every feasible path of the real "
         "search_bisection/search_bisection_vec that the returned index is the first element >= query (clipped) and that both agree; CubicHermiteInterp is exact (value and gradient) "
-        "on the general cubic with symbolic coefficients, interval of either orientation, symbolic evaluation point, scalar and array data.", "DESIGN.md 3/C17",
+        "on the general cubic with symbolic coefficients, interval of either orientation, symbolic evaluation point, scalar, vector and matrix-valued data (incl. leading dimension 4).", "DESIGN.md 3/C17",
         "Array lengths <= 6 (quick) / 7 (thorough); vector queries <= 2 / 3."),
     "C14": _entry("other",
         "For every feasible path of the real brentsroot and brentsrootvec (1-3 components) under the unwinding assumption |b-a| <= 2^k*tol, z3 shows for ALL real brackets (either order), "
         "tolerances in [4*eps64, 1e-3] (plus None and below-floor) and function parameters of the families linear s*(x-r) (s = +-1e-6..1e9 concrete and symbolic; root inside/outside/at an "
         "end) and jump (-u | +v): the returned point lies in the closed bracket or no success is claimed; a bracketed sign change is located to within tol and success is reported; "
         "success implies |f| <= tol or a sign change within tol; no sign change and |f| > tol at both ends implies no success; the loop never reaches the iteration cap; vector and "
-        "scalar solver agree whenever f(a)f(b) < 0.  A bit-precise QF_FP lemma exhibits adjacent floats bracketing a sign change with both residuals above tol and the real code is run on it.",
+        "scalar solver agree whenever f(a)f(b) < 0.  A bit-precise QF_FP lemma exhibits adjacent floats (x in +-(0.5,2), +-(4,8), +-(64,128)) bracketing a sign change with both residuals above tol and the real brentsroot AND brentsrootvec are run on it.",
         "DESIGN.md 3/C14", "k = 4/3 halvings (quick), 8/7 (thorough); vector lengths 1..3; two-root quadratics thorough-only (may end inconclusive). Known findings: "
         "c14.absolute_residual_success (flat functions, literal reading), c14.vec_unbracketed_result."),
     "C16": _entry("other",
         "Real JacobianWrapper (adaptive and fixed Richardson depth, flat both ways, base order 2/4/5) on affine maps with symbolic A, f(y), y (shapes scalar, (2,)->(2,), (3,)->(2,), "
         "(2,2)->(3,)) and polynomial maps of degree <= 4: entry [i...,j...] equals df_i/dy_j up to the rounding noise of the float64 stencil weights, shape (*shape f, *shape y); the "
-        "real DiffRHS.jac under every history of <= 3 (quick) / 4 (thorough) operations over {jac at fresh symbolic (t,y), hook, unhook, rhs.jac=, set_jac_base_order}: attached user "
+        "real DiffRHS.jac under every history of <= 3 (quick) / 4 (thorough) operations over {jac at fresh symbolic (t,y), hook, unhook, rhs.jac=, set_jac_base_order, copy.copy of the wrapper (as OdeSystem does)}: attached user "
         "Jacobians are called once with the requested (t,y) and returned unchanged, otherwise the finite-difference result is for the requested t and state; njev counts answered requests.",
         "DESIGN.md 3/C16", "Accuracy on non-polynomial functions is outside."),
     "C18": _entry("other",
         "The real solve_ivp with symbolic t_span, first_step, max_step, t_eval entries (unsorted, repeated, with/without end points), y0 of shape (2,) and (2,2), args, methods by name "
         "and class, and in the same path the object API with the same settings: shapes, columns pair with times, first column y0, t_eval times exactly the requested ones along the "
-        "direction of integration with columns equal to the object API's states, args bound positionally at every evaluation, no step above max_step, counters/status those of the system.",
+        "direction of integration with columns equal to the object API's states, args (tuples shorter than, and as long as, the rhs parameter list with defaults) bound positionally at every evaluation, no step above max_step, counters/status those of the system.",
         "DESIGN.md 3/C18", "Parity with scipy.integrate.solve_ivp is not applicable to this technique (independent compiled numerics)."),
     "C19": _entry("other",
         "On symbolic trajectories (forward, backward, continued, ctrl-adaptive): every integer index in [-len-2, len+2] has sequence semantics, iteration yields each row once in order, "
@@ -121,7 +126,7 @@ CHECKS = {
     "C20": _entry("other",
         "Independent counters inside the user rhs / Jacobian: on every feasible path of explicit, FSAL+rejection, splitting, implicit (user Jacobian and real finite-difference "
         "JacobianWrapper) runs nfev equals the completed user calls at every callback and at the end, also after faults and reset; callbacks in the given order, after the new row "
-        "is visible, once per recorded step; a dt assigned by a callback is the magnitude of the next attempted step.", "DESIGN.md 3/C20"),
+        "is visible, once per recorded step; a dt assigned by a callback is the magnitude of the next attempted step; two systems built on ONE rhs callable and used alternately each count only their own calls / Jacobian requests.", "DESIGN.md 3/C20"),
 }
 
 NOT_APPLICABLE = [
